@@ -100,6 +100,18 @@ def node_case(rng):
         lambda: "if principal.flag then %s else %s" % (chain_expr("resource", 2), chain_expr("resource", 1)),
         lambda: 'action in Action::"grp"',
         lambda: "!(" + chain_expr("principal", rng.randint(1, 4)) + ")",
+        # one atom per remaining residual kind with a dereference chain below it: the loader must be asked for the
+        # entities under `is`, `is .. in`, isEmpty, set / record literals, `==`, containsAll and `if` tests as well
+        lambda: "%s has next && %s.next is Node" % ((rng.choice(["principal", "resource", "context.target"]),) * 2),
+        lambda: "principal has next && principal.next has next && principal.next.next is Node",
+        lambda: "resource has next && resource.next is Node in %s" % lit(),
+        lambda: "principal has next && principal.next.peers.isEmpty()",
+        lambda: "resource has next && [resource.next, principal].contains(context.target)",
+        lambda: "principal has next && {a: principal.next, b: resource}.a.flag",
+        lambda: "principal has next && resource has next && principal.next == resource.next",
+        lambda: "resource has next && resource.next.peers.containsAll(principal.peers)",
+        lambda: "if (principal has next && principal.next.flag) then resource.flag else true",
+        lambda: "principal has next && (principal.next.flag == (resource has next && resource.next.flag))",
     ]
     pols = []
     for i in range(rng.randint(1, 4)):
